@@ -9,6 +9,7 @@
 Exit codes: 0 property held on everything explored, 1 violation observed on the real code,
 2 infrastructure problem (never a verdict).
 """
+import gzip
 import hashlib
 import json
 import os
@@ -17,6 +18,7 @@ import shutil
 import subprocess
 import sys
 import tempfile
+import threading
 import time
 
 ROOT = os.path.dirname(os.path.dirname(os.path.abspath(__file__)))
@@ -100,7 +102,7 @@ def spec_hash(module, cfg_text, extra):
 
 def run_tlc(module, cfg_text, workers=1, timeout=600, simulate=None, depth=None, tlc_seed=None,
             heap="8g", deadlock=False, extra_files=None, env_extra=None, keep_out=None, dfs=False,
-            coverage=False):
+            coverage=False, beh_sink=None):
     """Run TLC on spec/<module>.tla with the given configuration text.
 
     Returns a TlcResult. A TLC-reported invariant/property violation or deadlock is
@@ -136,27 +138,54 @@ def run_tlc(module, cfg_text, workers=1, timeout=600, simulate=None, depth=None,
         env = dict(os.environ)
         env.update(env_extra or {})
         t0 = time.time()
+        # stdout is consumed line by line: values printed by the specification ('"{...' / '"[...') go to the
+        # caller's sink (or stay in memory when there is none), everything else is TLC's own report
+        proc = subprocess.Popen(cmd, cwd=scratch, env=env, stdout=subprocess.PIPE, stderr=subprocess.STDOUT,
+                                text=True, errors="replace", bufsize=1 << 20)
+        timed_out = []
+
+        def _kill():
+            timed_out.append(True)
+            proc.kill()
+        timer = threading.Timer(timeout, _kill)
+        timer.start()
+        r = TlcResult()
+        report = []
+        kept = r.lines
         try:
-            p = subprocess.run(cmd, cwd=scratch, env=env, stdout=subprocess.PIPE, stderr=subprocess.STDOUT,
-                               timeout=timeout, text=True, errors="replace")
-        except subprocess.TimeoutExpired:
+            for ln in proc.stdout:
+                ln = ln.rstrip("\n")
+                if len(ln) > 2 and ln[0] == '"' and ln[1] in "[{":
+                    if beh_sink is not None:
+                        beh_sink(ln)
+                    else:
+                        kept.append(ln)
+                else:
+                    report.append(ln)
+                    kept.append(ln)
+            proc.wait()
+        finally:
+            timer.cancel()
+        if timed_out:
             subprocess.run(["pkill", "-f", scratch], check=False)
             raise Infra("TLC timed out after %ds on %s" % (timeout, module))
-        r = TlcResult()
+
+        class _P:
+            returncode = proc.returncode
+        p = _P()
         r.wall = time.time() - t0
         r.cmd = " ".join(cmd[cmd.index("tlc2.TLC"):])
-        r.lines = p.stdout.splitlines()
         if keep_out:
             with open(keep_out, "w") as f:
-                f.write(p.stdout)
-        for ln in r.lines:
+                f.write("\n".join(kept))
+        for ln in report:
             m = STAT_RE.search(ln)
             if m:
                 r.generated, r.distinct = int(m.group(1)), int(m.group(2))
             m = DEPTH_RE.search(ln)
             if m:
                 r.depth = int(m.group(1))
-        txt = p.stdout
+        txt = "\n".join(report)
         if simulate is not None:
             # simulation ends when num traces were generated
             m = re.search(r"The number of states generated: (\d+)", txt)
@@ -167,7 +196,7 @@ def run_tlc(module, cfg_text, workers=1, timeout=600, simulate=None, depth=None,
         if "TLC threw an unexpected exception" in txt or "Parsing or semantic analysis failed" in txt \
                 or "Error: Evaluating" in txt or "was unable to fingerprint" in txt:
             raise Infra("TLC error on %s:\n%s" % (module, "\n".join(
-                l for l in r.lines if not l.startswith('"'))[-3000:]))
+                l for l in report)[-3000:]))
         for pat in ("Invariant .* is violated", "Deadlock reached", "Temporal properties were violated",
                     "Action property .* is violated", "is violated", "Assumption .* is false",
                     "Postcondition \\S+ .*is false"):
@@ -183,7 +212,7 @@ def run_tlc(module, cfg_text, workers=1, timeout=600, simulate=None, depth=None,
         elif simulate is not None and "Finished in" in txt and "Error" not in txt:
             r.ok = True
         else:
-            tail = "\n".join(r.lines[-40:])
+            tail = "\n".join(report[-40:])
             raise Infra("TLC failed on %s (exit %s):\n%s" % (module, p.returncode, tail))
         return r
     finally:
@@ -225,6 +254,80 @@ def cached_tlc(name, module, cfg_text, **kw):
                    "ok": r.ok, "violation": r.violation, "cmd": r.cmd, "lines": keep}, f)
     r.lines = keep
     return r
+
+
+class BehFile:
+    """Behaviours printed by a specification, one JSON value per line of a gzip file under gen/ (never all in memory)."""
+
+    def __init__(self, path, count):
+        self.path = path
+        self.count = count
+
+    def __len__(self):
+        return self.count
+
+    def __iter__(self):
+        with gzip.open(self.path, "rt") as f:
+            for ln in f:
+                if ln.strip():
+                    yield json.loads(ln)
+
+
+def cached_tlc_file(name, module, cfg_text, leaves_key=None, **kw):
+    """Like cached_tlc, for generations whose output is large: the values the specification prints are streamed
+    into gen/<name>-<key>.ndjson.gz. With leaves_key, only the maximal ones (not a proper prefix of another) are kept."""
+    os.makedirs(GEN, exist_ok=True)
+    key = spec_hash(module, cfg_text, sorted((k, str(v)) for k, v in kw.items() if k not in ("timeout", "heap")) + ["file", bool(leaves_key)])
+    path = os.path.join(GEN, "%s-%s.ndjson.gz" % (name, key))
+    meta = path + ".meta"
+    if os.path.exists(path) and os.path.exists(meta):
+        d = json.load(open(meta))
+        r = TlcResult()
+        r.generated, r.distinct, r.depth, r.wall = d["generated"], d["distinct"], d["depth"], d["wall"]
+        r.ok, r.violation, r.cmd, r.cached = d["ok"], d["violation"], d["cmd"], True
+        return r, BehFile(path, d["count"])
+    tmp = path + ".tmp%d" % os.getpid()
+    n = [0]
+    with gzip.open(tmp, "wt", compresslevel=1) as out:
+        def sink(ln):
+            try:
+                v = json.loads(ln)   # TLC prints the JSON text as a quoted TLA+ string
+                json.loads(v)
+            except ValueError:
+                raise Infra("cannot parse behaviour line: %s" % ln[:200])
+            out.write(v)
+            out.write("\n")
+            n[0] += 1
+        try:
+            r = run_tlc(module, cfg_text, beh_sink=sink, **kw)
+        except BaseException:
+            out.close()
+            os.unlink(tmp)
+            raise
+    count = n[0]
+    witnesses = count
+    if leaves_key is not None and not r.violation:
+        seen = set()
+        for x in BehFile(tmp, count):
+            steps = leaves_key(x)
+            for i in range(len(steps)):
+                seen.add(_h(steps[:i]))
+        tmp2 = tmp + ".lv"
+        count = 0
+        with gzip.open(tmp2, "wt", compresslevel=1) as out:
+            with gzip.open(tmp, "rt") as f:
+                for ln in f:
+                    if ln.strip() and _h(leaves_key(json.loads(ln))) not in seen:
+                        out.write(ln)
+                        count += 1
+        os.replace(tmp2, tmp)
+    for fn in os.listdir(GEN):
+        if fn.startswith(name + "-") and not fn.startswith(os.path.basename(path)):
+            os.unlink(os.path.join(GEN, fn))
+    os.replace(tmp, path)
+    json.dump({"generated": r.generated, "distinct": r.distinct, "depth": r.depth, "wall": r.wall, "ok": r.ok,
+               "violation": r.violation, "cmd": r.cmd, "count": count, "witnesses": witnesses}, open(meta, "w"))
+    return r, BehFile(path, count)
 
 
 def leaves(paths, key=lambda p: p):
@@ -299,15 +402,20 @@ def run_sharded(args, items, shards=None, timeout=900, env_extra=None, died_is_r
     tmpd = tempfile.mkdtemp(prefix="verif-sh-")
     try:
         for i in range(shards):
-            part = items[i::shards]
-            fn = os.path.join(tmpd, "in%d.ndjson" % i)
-            with open(fn, "w") as f:
-                for x in part:
-                    f.write(json.dumps(x))
-                    f.write("\n")
+            if isinstance(items, BehFile):
+                # every child reads the same file and takes the lines of its residue class
+                src = ["-in", items.path, "-shard", str(i), "-of", str(shards)]
+            else:
+                part = items[i::shards]
+                fn = os.path.join(tmpd, "in%d.ndjson" % i)
+                with open(fn, "w") as f:
+                    for x in part:
+                        f.write(json.dumps(x))
+                        f.write("\n")
+                src = ["-in", fn]
             fo = open(os.path.join(tmpd, "out%d.json" % i), "w")
             fe = open(os.path.join(tmpd, "err%d.txt" % i), "w")
-            procs.append((subprocess.Popen([exe] + args + ["-in", fn], stdout=fo, stderr=fe, env=env), fo, fe, i))
+            procs.append((subprocess.Popen([exe] + args + src, stdout=fo, stderr=fe, env=env), fo, fe, i))
         results = []
         deadline = time.time() + timeout
         for p, fo, fe, i in procs:
